@@ -164,3 +164,23 @@ struct OneSliceSet {
 struct OneStructSet {
     1: optional set<Point> points
 }
+
+struct OneListKeyMap {
+    1: optional map<list<i8>, i16> byList
+}
+
+struct OneStructKeyMap {
+    1: optional map<Point, i16> byPoint
+}
+
+// optional fields whose types are typedefs of containers / binary (absent vs
+// present-but-empty must stay distinguishable; see C14)
+struct TypedefdOptA {
+    1: optional Labels labels
+    2: optional Blob blob
+}
+
+struct TypedefdOptB {
+    1: optional IntSet ints
+    2: optional Counts counts
+}
